@@ -391,6 +391,35 @@ def find_used_modules_recursion(prop="C06", replay=None):
     return out
 
 
+def find_used_modules_lookup(prop="C06", replay=None):
+    """a USE statement names the project's own module of that name when there is one; the modules FORD merely knows about (intrinsic modules, `extra_mods`, modules of external
+    projects) come after.  Recognised form of the lookup in find_used_modules:  `for candidate in chain(modules, external_modules):` (project modules first) with the single
+    statement `if <folded names equal>: dependency[0] = candidate; break` - the first match wins - and no other assignment to `dependency[0]`."""
+    import ast
+    from harness import loader
+    from harness.core import OR, PROVED, REFUTED, UNKNOWN
+    oid = f"{prop}.S.find_used_modules.project_modules_are_looked_up_before_external_ones"
+    fn = loader.find_def("ford.fortran_project", "find_used_modules")
+    stores = [n for n in ast.walk(fn) if isinstance(n, ast.Assign) and any(isinstance(t, ast.Subscript) and ast.unparse(t) == "dependency[0]" for t in n.targets)]
+    loops = [n for n in ast.walk(fn) if isinstance(n, ast.For) and ast.unparse(n.iter).replace("itertools.", "") == "chain(modules, external_modules)" and isinstance(n.target, ast.Name)]
+    ok = False
+    if len(loops) == 1 and len(stores) == 1:
+        l = loops[0]
+        if len(l.body) == 1 and isinstance(l.body[0], ast.If) and not l.body[0].orelse and not l.orelse:
+            i = l.body[0]
+            ok = (stores[0] in i.body and isinstance(i.body[-1], ast.Break) and ast.unparse(stores[0].value) == l.target.id
+                  and isinstance(i.test, ast.Compare) and len(i.test.ops) == 1 and isinstance(i.test.ops[0], ast.Eq))
+    r = OR(id=oid, status=PROVED if ok else UNKNOWN, kind="S", role="post", backend="ast", target="ford.fortran_project.find_used_modules",
+           desc="`for candidate in chain(modules, external_modules): if <names equal>: dependency[0] = candidate; break`: the project's modules are searched first and the first match wins")
+    if not ok:
+        hit = replay() if replay else None
+        r.detail = "the lookup of a used module's name is not of the recognised first-match form"
+        if hit:
+            r.status, r.replay = REFUTED, hit
+            r.detail += ": a module of the project is shadowed by an intrinsic / extra / external module of the same name"
+    return [r]
+
+
 def dict2obj_constructs(prop="C16", replay=None):
     """dict2obj turns one description of modules.json into one *new* entity object carrying that description's URL.  Names are unique only within a scope of the exporting
     project (A may have `init` in two modules, `n` in two types), so an object built for one description must never be handed out for another: every `return` of dict2obj
